@@ -57,6 +57,7 @@ package join
 //@   setat "if event.IsTimeoutKind() {" len0 := len(p.buff)
 //@   ensures p.isJoining == (p.initial != nil)
 //@   ensures timeout ==> result == pipeline.ActionDiscard && nflush == 1
+//@   ensures old(event.kind) == pipeline.EventKindTimeout ==> result == pipeline.ActionDiscard
 //@   ensures !timeout && absent ==> result == pipeline.ActionPass && nflush == ite(old(p.isJoining), 1, 0)
 //@   ensures !timeout && !absent && first ==> result == pipeline.ActionHold && p.initial == event && p.isJoining && nflush == ite(old(p.isJoining), 1, 0)
 //@   ensures !timeout && !absent && !first && old(p.isJoining) && next ==> result == pipeline.ActionCollapse && nflush == 0 && p.initial == old(p.initial)
@@ -65,6 +66,7 @@ package join
 //@   ensures !timeout && !absent && !first && old(p.isJoining) && next && !(p.maxEventSize == 0 || len0 < p.maxEventSize) ==> len(p.buff) == len0
 //@   ensures !timeout && !absent && !first && !(old(p.isJoining) && next) ==> result == pipeline.ActionPass && nflush == ite(old(p.isJoining), 1, 0) && !p.isJoining
 //@   callee IsTimeoutKind() (r)
+//@     ensures r == (event.kind == pipeline.EventKindTimeout)
 //@     set timeout := r
 //@   callee Dig(path) (n)
 //@     pure
